@@ -16,6 +16,17 @@ macro_rules! endian_fn {
             ensure!(back == v, "{}: native::from(W::from({:#x})) = {:#x}", $wname, v, back);
             let wire = v.$to_bytes();
             ensure!(w.as_slice() == &wire[..], "{}: bytes of {:#x} are {:x?}, declared order gives {:x?}", $wname, v, w.as_slice(), wire);
+            {
+                // the object's own stream helpers carry the same wire bytes
+                let mut out: Vec<u8> = Vec::new();
+                w.write_all_to(&mut out).map_err(|e| format!("{}: write_all_to: {}", $wname, e))?;
+                ensure!(out[..] == wire[..], "{}: write_all_to of {:#x} emitted {:x?}, declared order gives {:x?}", $wname, v, out, wire);
+                let back = <$W>::read_exact_from(&wire[..]).map_err(|e| format!("{}: read_exact_from: {}", $wname, e))?;
+                ensure!(back.to_native() == v, "{}: read_exact_from of the wire bytes {:x?} gives {:#x}", $wname, wire, back.to_native());
+                let mut copy = <$W>::zeroed();
+                copy.as_mut_slice().copy_from_slice(&wire[..]);
+                ensure!(copy.to_native() == v, "{}: the wire bytes {:x?} placed into a wrapper read as {:#x}", $wname, wire, copy.to_native());
+            }
             ensure!(w == v, "{}: W::from({:#x}) == {:#x} is false", $wname, v, v);
             ensure!(v == w, "{}: {:#x} == W::from({:#x}) is false", $wname, v, v);
             ensure!(w == <$W>::from(v), "{}: W == W reflexive", $wname);
